@@ -5,7 +5,7 @@
    Written from the Go code, guard by guard (`opts == nil || !opts.F`, `opts != nil &&
    opts.F`); an option value is MergeOpts.vopts (None = the nil pointer, flags in the
    declaration order of the struct; the positions used here are pinned against the
-   struct of the run by Oblig/C09OptsObl.v):
+   struct of the run by ArithOptsTable.positions_ok, Oblig/C09OptsObl.v):
 
    record level, the *EntryDetail's own options ([vb_eopts], parallel to the entries):
      EntryDetail.Validate        CheckTransactionCode f   replaces the standard-code test by f
@@ -48,21 +48,6 @@ Definition ix_unequal_scc : nat := 10.
 Definition ix_unordered : nat := 11.
 Definition ix_invalid_check : nat := 12.
 Definition ix_unequal_addenda : nat := 13.
-
-(* the positions with the names they must have in the struct of the run *)
-Definition opt_positions : list (nat * list N) :=
-  [ (ix_skip_all,        [83;107;105;112;65;108;108]);
-    (ix_require_aba,     [82;101;113;117;105;114;101;65;66;65;79;114;105;103;105;110]);
-    (ix_bypass_origin,   [66;121;112;97;115;115;79;114;105;103;105;110;86;97;108;105;100;97;116;105;111;110]);
-    (ix_bypass_dest,     [66;121;112;97;115;115;68;101;115;116;105;110;97;116;105;111;110;86;97;108;105;100;97;116;105;111;110]);
-    (ix_custom_trace,    [67;117;115;116;111;109;84;114;97;99;101;78;117;109;98;101;114;115]);
-    (ix_zero_batches,    [65;108;108;111;119;90;101;114;111;66;97;116;99;104;101;115]);
-    (ix_missing_header,  [65;108;108;111;119;77;105;115;115;105;110;103;70;105;108;101;72;101;97;100;101;114]);
-    (ix_missing_control, [65;108;108;111;119;77;105;115;115;105;110;103;70;105;108;101;67;111;110;116;114;111;108]);
-    (ix_unequal_scc,     [85;110;101;113;117;97;108;83;101;114;118;105;99;101;67;108;97;115;115;67;111;100;101]);
-    (ix_unordered,       [65;108;108;111;119;85;110;111;114;100;101;114;101;100;66;97;116;99;104;78;117;109;98;101;114;115]);
-    (ix_invalid_check,   [65;108;108;111;119;73;110;118;97;108;105;100;67;104;101;99;107;68;105;103;105;116]);
-    (ix_unequal_addenda, [85;110;101;113;117;97;108;65;100;100;101;110;100;97;67;111;117;110;116;115]) ]%N.
 
 Definition octc (o : vopts) : option N := match o with Some a => o_ctc a | None => None end.
 
